@@ -171,4 +171,53 @@ func runC11(ctx *Ctx) {
 	}
 	wg.Wait()
 	_ = time.Now
+	// the pool's reply to a keep-alive: what it lists as active is what the store tracks after
+	// the keep-alive, whatever the keep-alive itself reported (nothing, some, unknown ids)
+	npool := ctx.N(40, 800)
+	for c := 0; c < npool; c++ {
+		i := 2*nseq + c
+		if !ctx.Want(i) {
+			continue
+		}
+		rng := ctx.Sub(i)
+		drv := c % 2
+		var ops []*POp
+		for _, h := range []string{"h1", "h2", "h3"} {
+			ops = append(ops, &POp{Op: "connect", Node: h, Host: true, Kind: "geth"})
+		}
+		ops = append(ops, &POp{Op: "connect", Node: "c1", Kind: "geth"})
+		rounds := 4 + rng.Intn(8)
+		for r := 0; r < rounds; r++ {
+			var rep []string
+			switch rng.Intn(4) {
+			case 0: // an empty report
+			case 1:
+				rep = []string{[]string{"h1", "h2", "h3"}[rng.Intn(3)]}
+			default:
+				for _, h := range []string{"h1", "h2", "h3"} {
+					if rng.Intn(3) != 0 {
+						rep = append(rep, h)
+					}
+				}
+			}
+			for _, h := range []string{"h1", "h2", "h3"} {
+				if rng.Intn(3) != 0 { // the host itself checks in
+					ops = append(ops, &POp{Op: "update", Node: h, Block: uint64(r)})
+				}
+			}
+			ops = append(ops, &POp{Op: "update", Node: "c1", Peers: rep, Block: uint64(r), Elapsed: 1e9})
+			ctx.Count(fmt.Sprintf("pool-report-size:%d", len(rep)))
+			if rng.Intn(2) == 0 {
+				ops = append(ops, &POp{Op: "advance", D: gaps[rng.Intn(len(gaps))]})
+			}
+		}
+		_, mon, done := runPoolSeq(worldCfg{Drv: drv, Price: "1000", IntervalNs: 60e9, Settle: true}, ops)
+		var mine []string
+		for _, m := range mon {
+			if strings.HasPrefix(m, "c11-") {
+				mine = append(mine, m)
+			}
+		}
+		ctx.Emit(Case{I: i, Kind: "pool-reply-" + driverNames[drv], Desc: poolDesc{worldCfg{Drv: drv}, done}, Monitor: mine})
+	}
 }
